@@ -966,8 +966,12 @@ class Router:
         # Step 2: look up DE PV from LocT
         de_entry = self.location_table.get_entry(
             request.destination) if request.destination else None
-        if de_entry is None:
-            # No LocTE for destination → invoke Location Service (§10.3.7.1.2)
+        with self._ls_lock:
+            ls_in_progress = request.destination in self._ls_packet_buffers
+        if de_entry is None or ls_in_progress:
+            # No LocTE for destination, or a Location Service lookup for it is still in
+            # progress (the LocTE is only a placeholder and the request has to queue up
+            # behind the ones already buffered) → invoke Location Service (§10.3.7.1.2)
             assert request.destination is not None
             self.gn_ls_request(request.destination, request)
             return GNDataConfirm(result_code=ResultCode.ACCEPTED)
